@@ -335,10 +335,19 @@ def judge(prop, case, acc):
     # float dust guard (D4): a row below 1e-9 or a cell whose free capacity is in (0, 1e-9) means binary rounding
     # decided where work went; such cases are judged only by the tolerance-based clauses
     usage0 = collections.defaultdict(float)
+    cell_units = collections.defaultdict(list)
     for r in rows:
         usage0[(r.resource.name, r.date)] += r.units
-    dusty = any(0 < r.units < 1e-9 for r in rows) or \
-        any(0 < capd(k[0], k[1]) - v < 1e-9 * max(1.0, capd(k[0], k[1])) for k, v in usage0.items())
+        cell_units[(r.resource.name, r.date)].append(r.units)
+
+    def _near_full(k, v):
+        cp_ = capd(k[0], k[1])
+        return 0 < abs(cp_ - v) < 1e-9 * max(1.0, cp_)
+    # both summation orders count: the ledger totals a day with the builtin sum() (compensated for floats since
+    # Python 3.12), which can differ in the last bit from a running total
+    dusty = any(0 < r.units < 1e-9 for r in rows) or any(_near_full(k, v) for k, v in usage0.items()) or \
+        any(_near_full(k, sum(v, 0)) for k, v in cell_units.items()) or \
+        any(_near_full(k, sum(v[:j], 0)) for k, v in cell_units.items() for j in range(1, len(v)))
     if dusty:
         acc.count('dusty_cases')
 
